@@ -96,6 +96,14 @@ def parse_contracts(path):
             cur_fn.awaits[k] = cur
             sec = None
             continue
+        if line.startswith("@before_let "):
+            nm = line.split()[1]
+            cur = Contract("before_let", nm)
+            cur_fn.before_lets = getattr(cur_fn, "before_lets", {})
+            cur_fn.before_lets[nm] = cur
+            cur.raw["entry"] = ""
+            sec = "entry"
+            continue
         if line.startswith("@after_let "):
             nm = line.split()[1]
             cur = Contract("after_let", nm)
@@ -291,8 +299,8 @@ class Unit:
         if "R7" in enabled:
             t, n = R.r7_expand_repo_macros(t, os.path.join(REPO, "p2panda-store/src/macros.rs"))
             self._count("R7", n)
-        for r in ("R25", "R2", "R5", "R4", "R6", "R16", "R17", "R17b", "R22", "R3", "R10", "R15", "R18", "R18b", "R20"):
-            if r in enabled or (r == "R17b" and "R17" in enabled) or r == "R25":
+        for r in ("R25", "R2", "R5", "R4", "R6", "R16", "R16b", "R17", "R17b", "R22", "R3", "R10", "R15", "R18", "R18b", "R20"):
+            if r in enabled or (r == "R17b" and "R17" in enabled) or r == "R25" or (r == "R16b" and "R16" in enabled):
                 t, n = R.RULES[r](t)
                 self._count(r, n)
         if "R12" in enabled:
@@ -480,6 +488,24 @@ class Unit:
                     raise LostAnchor("%s: statement anchor /%s/ of %s not found" % (it.file, ac.key, it.name))
                 for hpos in sorted(set(hits)):
                     inserts.append((hpos, "entry", ac.raw["entry"], None))
+            for nm, ac in getattr(c, "before_lets", {}).items():
+                # anchor: in front of the `let` statement (at any depth) whose pattern binds identifier nm
+                hits = []
+                for k in re.finditer(r"\blet\b", m):
+                    j = k.end()
+                    q = j
+                    while q < len(m) and m[q] not in "=;":
+                        if m[q] in "([{":
+                            q = L.match_close(m, q)
+                        q += 1
+                    if q >= len(m) or m[q] != "=":
+                        continue
+                    patt = m[j:q].split(":")[0]
+                    if re.search(r"\b%s\b" % re.escape(nm), patt):
+                        hits.append(k.start())
+                if len(hits) != 1:
+                    raise LostAnchor("%s: `let %s` anchor of %s matches %d statements" % (it.file, nm, it.name, len(hits)))
+                inserts.append((hits[0], "entry", ac.raw["entry"], None))
             for nm, ac in getattr(c, "after_lets", {}).items():
                 # anchor: the `let` statement (at any depth) whose pattern binds identifier nm
                 hits = []
